@@ -16,7 +16,7 @@ import re
 
 TY = {"u8": (8, False), "u16": (16, False), "u32": (32, False), "u64": (64, False), "u128": (128, False), "usize": (64, False),
       "i8": (8, True), "i16": (16, True), "i32": (32, True), "i64": (64, True), "i128": (128, True), "isize": (64, True),
-      "bool": (1, False)}
+      "bool": (1, False), "char": (32, False)}
 
 
 class Undecided(Exception):
@@ -673,7 +673,7 @@ class Interp:
         if "str" in o:
             return Opaque(("str", o["str"]))
         if "bytes" in o or str(o.get("ty", "")).startswith(("&[u8", "&'static [u8", "&str")):
-            return Opaque(("bytes", o.get("text")))      # format templates and other byte literals
+            return Opaque(("bytes", tuple(o["bytes"]) if isinstance(o.get("bytes"), list) else o.get("text")))      # format templates and other byte literals
         raise Unsupported("constant %s" % (o.get("text") or o.get("ty")))
 
     def named_const(self, fr, o, ty):
